@@ -1432,7 +1432,7 @@ BUILTINS = {
     'abs': Py(lambda sk, n, x: ((Gap(abs(x.mag), x.off * x.sign) if x.mag else Gap(0, abs(x.off))) if isinstance(x, Gap) else DEF()) if isinstance(x, Tok) else abs(x), 'abs'), 'round': Py(_round, 'round'),
     'zip': Py(lambda sk, n, *a: list(zip(*[sk.iterate(x, n) for x in a])), 'zip'),
     'enumerate': Py(lambda sk, n, x, *s: list(enumerate(sk.iterate(x, n), *s)), 'enumerate'),
-    'isinstance': Py(_isinst, 'isinstance'), 'list': Py(lambda sk, n, *a: list(*a), 'list'), 'tuple': Py(lambda sk, n, *a: tuple(*a), 'tuple'),
+    'isinstance': Py(_isinst, 'isinstance'), 'list': Py(lambda sk, n, *a: list(sk.iterate(a[0], n)) if a else [], 'list'), 'tuple': Py(lambda sk, n, *a: tuple(sk.iterate(a[0], n)) if a else (), 'tuple'),
     'shallowcopy': Py(_shallowcopy, 'copy.copy'), 'id': Py(lambda sk, n, x: id(x), 'id'), 'setattr': Py(lambda sk, n, ob, k, v: ob._a.__setitem__(k, v), 'setattr'),
     'getattr': Py(lambda sk, n, ob, k, *d: ob._a[k] if k in ob._a else (d[0] if d else (_ for _ in ()).throw(Violation('SK2', 'getattr: no attribute %s' % k, n))), 'getattr'),
     'hasattr': Py(lambda sk, n, ob, k: isinstance(ob, Bag) and k in ob._a, 'hasattr'),
